@@ -165,7 +165,7 @@ package net
 //@ func (e *endPoint) Send(m Message) (err error)
 //@   tags C10
 //@   requires e.stream != nil && len(m.Payload) <= 4294967267
-//@   modifies e.stream.len, e.stream.writes, e.stream.data
+//@   modifies e.stream.len, e.stream.writes, e.stream.data, e.stream.wfailed
 //@   ensures[C10] e.stream.accepting && len(m.Payload) == m.Header.Size ==> err == nil && e.stream.writes == old(e.stream.writes) + 1
 //@   ensures[C10] e.stream.writes <= old(e.stream.writes) + 1 || !e.stream.accepting
 
